@@ -252,12 +252,20 @@ def replay(beh, workdir, seed, stats):
             else:
                 before = np.array(ro.atoms_positions, float)
                 c0 = before.mean(axis=0)
+                # the vector handed over may be an array the object itself owns (the live position of one of its atoms):
+                # the operation must use its value at call time
+                own = None
+                if rng.random() < 0.35:
+                    try:
+                        own = (ro if so['kind'] == 'atom' else ro[int(rng.integers(0, len(before)))]).position
+                    except Exception:
+                        own = None
                 if op == 'move':
-                    d = rng.uniform(-2, 2, 3)
-                    ro.move(d)
+                    d = rng.uniform(-2, 2, 3) if own is None else np.array(own, float).copy()
+                    ro.move(d if own is None else own)
                 elif op == 'move_to':
-                    p = rng.uniform(-5, 5, 3)
-                    ro.move_to(p)
+                    p = rng.uniform(-5, 5, 3) if own is None else np.array(own, float).copy()
+                    ro.move_to(p if own is None else own)
                 else:
                     from gaddlemaps import rotation_matrix
                     R = rotation_matrix(rng.normal(size=3), rng.uniform(-3, 3))
